@@ -320,6 +320,9 @@ SystemMaybe<std::vector<std::string>> Fs::readControllersAt(
   if (!lines) {
     return SYSTEM_ERROR(lines.error());
   }
+  if (lines->empty()) {
+    return SYSTEM_ERROR(EINVAL);
+  }
   return Util::split((*lines)[0], ' ');
 }
 
@@ -460,6 +463,9 @@ SystemMaybe<int64_t> Fs::readMemcurrentAt(const DirFd& dirfd) {
   if (!lines) {
     return SYSTEM_ERROR(lines.error());
   }
+  if (lines->empty()) {
+    return SYSTEM_ERROR(EINVAL);
+  }
   return static_cast<int64_t>(std::stoll((*lines)[0]));
 }
 
@@ -577,6 +583,9 @@ SystemMaybe<int64_t> Fs::readSwapCurrentAt(const DirFd& dirfd) {
     return SYSTEM_ERROR(lines.error());
   }
   // The swap controller can be disabled via CONFIG_MEMCG_SWAP=n
+  if (lines->empty()) {
+    return SYSTEM_ERROR(EINVAL);
+  }
   return std::stoll((*lines)[0]);
 }
 
@@ -596,6 +605,9 @@ SystemMaybe<int64_t> Fs::readPidsCurrentAt(const DirFd& dirfd) {
   auto line = Fs::readFileByLine(Fs::Fd::openat(dirfd, Fs::kPidsCurr));
   if (!line) {
     return SYSTEM_ERROR(line.error());
+  }
+  if (line->empty()) {
+    return SYSTEM_ERROR(EINVAL);
   }
   return std::stoll((*line)[0]);
 }
